@@ -276,18 +276,34 @@ def check_phases(ctx, F):
                                      "deepQuery", "deepUpdatePlans", "clearStatuses", "processRequest", "processTransitions"}
         ok = True
         found = None
-        for p in sym_paths(F, fid):
-            seq = []
-            for ev in p:
-                if ev[0] == "call" and ev[2] is not None:
-                    n = F.fn(ev[2])["name"]
-                    if n in interesting:
-                        seq.append(n)
-                elif ev[0] == "write" and ev[2].endswith("._consumed"):
-                    seq.append("rearm" if ev[3] in ("#False", "#0") else "consume!")
-            if seq != expect:
+
+        def seqs_of(f, depth):
+            """phase-token sequences of the paths of `f`; a call to another member of R_ that is not itself a phase (an extracted helper) is
+            replaced by the sequences of its own paths"""
+            out = set()
+            for p in sym_paths(F, f):
+                cur = [()]
+                for ev in p:
+                    if ev[0] == "call" and ev[2] is not None:
+                        cf = F.fn(ev[2])
+                        n = cf["name"]
+                        if n in interesting:
+                            cur = [c + (n,) for c in cur]
+                        elif cf.get("cls") == "R_" and depth < 2 and F.body(ev[2]) is not None and (ev[3] or "this") == "this" and cf.get("kind") not in ("ctor", "dtor"):
+                            sub = seqs_of(ev[2], depth + 1)
+                            if any(sub):
+                                cur = [c + t for c in cur for t in sub]
+                    elif ev[0] == "write" and ev[2].endswith("._consumed"):
+                        tok = "rearm" if ev[3] in ("#False", "#0") else "consume!"
+                        cur = [c + (tok,) for c in cur]
+                out.update(cur)
+                if len(out) > 64:
+                    raise AnalysisBroken("%s: too many phase sequences" % site)
+            return out
+        for seq in seqs_of(fid, 0):
+            if list(seq) != expect:
                 ok = False
-                found = seq
+                found = list(seq)
         ctx.instance("C05.phases", site, {"function": site, "loc": F.floc(fid), "expected": expect})
         if not ok:
             ctx.violation("C05.phases", site, "%s (%s)" % (site, F.floc(fid)), "phase sequence %s differs from %s" % (found, expect),
